@@ -1,4 +1,5 @@
 import PEval.Lemmas.FrameChange
+import PEval.Lemmas.FrameEval
 import PEval.Properties.C06
 import PEval.Properties.C09
 import PEval.Properties.C10
@@ -295,5 +296,247 @@ example : keptMap exHigh exRing exRing (exScene.map (Tagged.toMap exHigh)) = .ok
     keptEgo exRing exRing exScene = .ok [1, 2] := by decide +kernel
 example : keptMap exHigh exBox exBox (exScene.map (Tagged.toMap exHigh)) = .ok [0, 2] ∧
     keptEgo exBox exBox exScene = .ok [0, 2] := by decide +kernel
+
+/-! ## end to end: the whole frame, and histories of frames
+
+`FrameChange.evalFrame` (Model/FrameEval.lean) is `add_frame_result` + `evaluate_frame` on a frame as given:
+manager filter → score table → `Matching.getObjectResults` → critical filter, `__eq__` classes →
+`Pipeline.detectFrame` (per-label `Map`s = `AP.frameMap`, `PassFail.evaluateFrame`) → CLEAR inputs, with the
+reader chosen by the objects' frame id.  `evalFrame_toMap`: expressing all objects of a `BASE_LINK` frame in
+the map frame (any unit yaw, any translation incl. height) and supplying the transform changes NOTHING of the
+result — kept sets of both filters, score table, matcher result, TP / FP / TN / FN lists, AP / APH / mAP /
+mAPH, CLEAR inputs; the same exception if one is raised.  `clear_toMap` / `tracking_toMap`: over a history in
+which every frame has its own ego pose, the CLEAR fold (TP weight, FP, ID switches, score sum) and the
+per-label MOTA / MOTP / switch numbers with their sums agree.  The statement is FALSE for the two defective
+map branches `readerMapJ` / `readerMapG` / `readerMapE` (`evalFrame_toMap_fails_J`, `…_G`, `…_E`). -/
+
+/-- every score of a pair except the sign of the yaw error, without side condition -/
+theorem scoreRow_unsigned_toMap (e : Pose) (h : e.rot.IsUnit) (he : InDom e.tau) (a g : Obj)
+    (ha : InDom a.tau) (hg : InDom g.tau) :
+    (scoreRowMap e (a.toMap e) (g.toMap e)).unsigned = (scoreRowEgo a g).unsigned := by
+  obtain ⟨h1, h2, h3, h4, h5, h6⟩ := scoreRow_toMap_decisions e h he a g ha hg
+  unfold ScoreRow.unsigned
+  simp only [ScoreRow.mk.injEq]
+  refine ⟨h1, h2, h3, h4, h5, ?_⟩
+  rcases h6 with h6 | h6
+  · rw [h6]
+  · rw [h6, rabs_neg]
+
+/-- the whole score table (all estimates × all ground truths, yaw error unsigned), without the
+"no exactly opposite pair" condition of `scoreTable_toMap` -/
+theorem scoreTable_unsigned_toMap (e : Pose) (h : e.rot.IsUnit) (he : InDom e.tau) (ests gts : List SObj)
+    (hd : ∀ o ∈ ests ++ gts, InDom o.obj.tau) :
+    tableOf (readerMap e) (ests.map (SObj.toMap e)) (gts.map (SObj.toMap e)) = tableOf readerEgo ests gts :=
+  tableOf_congr readerEgo (readerMap e) (SObj.toMap e) ests gts (fun a ha g hg =>
+    scoreRow_unsigned_toMap e h he a.obj g.obj (hd a (List.mem_append_left _ ha))
+      (hd g (List.mem_append_right _ hg)))
+
+/-- hypotheses on a recorded frame and its ego pose: unit yaw rotation (any translation, any height), all
+yaws principal values, objects recorded in `BASE_LINK` -/
+def FrameOK (e : Pose) (f : SFrame) : Prop :=
+  e.rot.IsUnit ∧ InDom e.tau ∧ f.frameId = .baseLink ∧ ∀ o ∈ f.ests ++ f.gts, InDom o.obj.tau
+
+/-- **C07, one frame**: the evaluation of the map rendering (transform supplied) equals the evaluation of the
+ego rendering, for every configuration of both filters, the matcher, pass/fail, the metrics -/
+theorem evalFrame_toMap (C : EvalCfg) (e : Pose) (f : SFrame) (hok : FrameOK e f) :
+    evalFrame C (f.toMap e) = evalFrame C f := by
+  obtain ⟨h, he, hf, hd⟩ := hok
+  unfold evalFrame
+  have hr : f.reader = readerEgo := by unfold SFrame.reader; rw [hf]
+  rw [hr]
+  show evalWith (readerMap e) C (f.ests.map (SObj.toMap e)) (f.gts.map (SObj.toMap e)) = _
+  apply evalWith_congr readerEgo (readerMap e) C (SObj.toMap e) f.ests f.gts (fun _ => rfl)
+  · intro P o _
+    exact verdict_toMap e h P o
+  · intro a ha g hg
+    exact scoreRow_unsigned_toMap e h he a.obj g.obj (hd a (List.mem_append_left _ ha))
+      (hd g (List.mem_append_right _ hg))
+  · intro a _ b _
+    exact samePose_toMap e h a.obj b.obj
+
+/-- spelled out: the components of the two results -/
+theorem evalFrame_toMap_components (C : EvalCfg) (e : Pose) (f : SFrame) (hok : FrameOK e f)
+    (m b : FrameOut) (hm : evalFrame C (f.toMap e) = .ok m) (hb : evalFrame C f = .ok b) :
+    m.keptEst = b.keptEst ∧ m.keptGt = b.keptGt ∧ m.critEst = b.critEst ∧ m.critGt = b.critGt ∧
+    m.table = b.table ∧ m.same = b.same ∧ m.out.matched = b.out.matched ∧
+    m.out.pf.tp = b.out.pf.tp ∧ m.out.pf.fp = b.out.pf.fp ∧ m.out.pf.tn = b.out.pf.tn ∧ m.out.pf.fn = b.out.pf.fn ∧
+    m.out.maps = b.out.maps ∧ m.tracks = b.tracks := by
+  rw [evalFrame_toMap C e f hok, hb] at hm
+  cases hm
+  simp
+
+/-- what `out.matched` is: `Matching.getObjectResults` on the scene whose values are the entries of the
+result's own score table (labels of the kept objects, the frame id of the rendering) -/
+theorem evalFrame_matched (C : EvalCfg) (f : SFrame) (o : FrameOut) (h : evalFrame C f = .ok o) :
+    ∃ aE aG : List Attr, aE.map (·.tag.id) = o.keptEst ∧ aG.map (·.tag.id) = o.keptGt ∧
+      Matching.getObjectResults C.matcher
+        (mkFrame C f.reader.frame aE aG o.critEst o.critGt o.table (eqKeys o.same)).scene = .ok o.out.matched ∧
+      Pipeline.detectFrame (mkFrame C f.reader.frame aE aG o.critEst o.critGt o.table (eqKeys o.same)) = .ok o.out := by
+  unfold evalFrame evalWith at h
+  split at h
+  · cases h
+  · rename_i kE _
+    split at h
+    · cases h
+    · rename_i kG _
+      unfold evalKept at h
+      split at h
+      · cases h
+      · rename_i cE _
+        split at h
+        · cases h
+        · rename_i cG _
+          unfold finish at h
+          simp only at h
+          split at h
+          · cases h
+          · rename_i out hdet
+            cases h
+            refine ⟨kE.map (·.attr), kG.map (·.attr), rfl, rfl, ?_, hdet⟩
+            unfold Pipeline.detectFrame at hdet
+            split at hdet
+            · cases hdet
+            · rename_i rs hrs
+              split at hdet
+              · cases hdet
+              · split at hdet
+                · cases hdet
+                · cases hdet
+                  exact hrs
+
+/-- every frame of a history, each with its own ego pose -/
+theorem evalHistory_toMap (C : EvalCfg) (hist : List (Pose × SFrame)) (hok : ∀ p ∈ hist, FrameOK p.1 p.2) :
+    evalHistory C (histToMap hist) = evalHistory C (histEgo hist) := by
+  unfold evalHistory histToMap histEgo
+  rw [mapE_map (f := fun p : Pose × SFrame => evalFrame C p.2) (g := evalFrame C)
+        (r := fun p : Pose × SFrame => p.2.toMap p.1) (fun p hp => evalFrame_toMap C p.1 p.2 (hok p hp)),
+      mapE_map (f := fun p : Pose × SFrame => evalFrame C p.2) (g := evalFrame C)
+        (r := fun p : Pose × SFrame => p.2) (fun _ _ => rfl)]
+
+/-- **C07, histories**: the CLEAR fold over the frames (TP weight, FP, ID switches, score sum) -/
+theorem clear_toMap (C : EvalCfg) (hist : List (Pose × SFrame)) (hok : ∀ p ∈ hist, FrameOK p.1 p.2) :
+    clearOf C (histToMap hist) = clearOf C (histEgo hist) := by
+  unfold clearOf
+  rw [evalHistory_toMap C hist hok]
+
+/-- … and the tracking score of the scene: per target label MOTA, MOTP, ID switches, and their sums -/
+theorem tracking_toMap (C : EvalCfg) (hist : List (Pose × SFrame)) (hok : ∀ p ∈ hist, FrameOK p.1 p.2) :
+    trackingOf C (histToMap hist) = trackingOf C (histEgo hist) := by
+  unfold trackingOf
+  rw [evalHistory_toMap C hist hok]
+
+/-! ### a concrete frame: the overpass scene with estimates, both filters, matcher, metrics
+
+Ground truths: the car on the overpass (id 0, 6.7 m away in bird's-eye view, 7 m up), a sparse car (id 1,
+3 points), a car (id 2).  Estimates: one near each.  Ring filter 8 m … 60 m, or x/y box with at least 5 points. -/
+
+def exAttr (i : Nat) (pc : Int) : Attr :=
+  { tag := exTag i pc, mlabel := "car", alabel := 2, uid := 100 + i, stamp := 7 }
+def exEstAttr (i : Nat) (c : Rat) : Attr :=
+  { tag := { exTag i 0 with score := c, pcNum := none, uuid := none }, mlabel := "car", alabel := 2, uid := 200 + i, stamp := 7 }
+def exOverEst : Obj := { exOver with box := { exOver.box with center := ⟨25/4, 3, 7⟩ } }
+def exGt2 : Obj := { box := { center := ⟨-12, 5, 1/2⟩, rot := ⟨0, 1⟩, w := 2, l := 4, h := 3/2 }, tau := 1/2 }
+def exEst2 : Obj := { exGt2 with box := { exGt2.box with center := ⟨-12, 21/4, 1/2⟩ } }
+
+def exFrame : SFrame :=
+  { frameId := .baseLink, pose := exHigh
+    ests := [⟨exEstAttr 10 (9/10), exOverEst⟩, ⟨exEstAttr 11 (4/5), exEst⟩, ⟨exEstAttr 12 (7/10), exEst2⟩]
+    gts := [⟨exAttr 0 10, exOver⟩, ⟨exAttr 1 3, exGt⟩, ⟨exAttr 2 5, exGt2⟩] }
+
+def exCfg (flt : Filter.Params) : EvalCfg :=
+  { mgr := flt, crit := flt
+    matcher := { policy := .default, mode := .centerDistance, targets := some ["car"], thresholds := some [4],
+                 fpValidation := false }
+    dist := id, pfTargets := [2], pfThrs := some [4], critTargets := [2], mapTargets := [2]
+    maps := [⟨.centerDistance, [1]⟩], trackMode := .centerDistance, trackTargets := [(2, 1)] }
+
+example : FrameOK exHigh exFrame := by
+  refine ⟨by unfold Rot2.IsUnit exHigh; norm_num, by decide +kernel, rfl, by decide +kernel⟩
+
+/-- instance of `evalFrame_toMap`, ring filter: the overpass pair is removed in both renderings, two pairs are
+matched and counted TP -/
+def exRingSummary : Summary :=
+  { keptEst := [11, 12], keptGt := [1, 2], matched := [(1, some 1), (0, some 0)], tp := [12, 11], fp := [],
+    tn := [], fn := [], maps := [(some 1, some (128881/160000))] }
+
+example : (evalFrame (exCfg exRing) (exFrame.toMap exHigh)).map FrameOut.summary = .ok exRingSummary ∧
+    (evalFrame (exCfg exRing) exFrame).map FrameOut.summary = .ok exRingSummary := by
+  decide +kernel
+
+/-- the statement of `evalFrame_toMap` FAILS for the map branch that takes the 3-D norm for the distance ring
+(seed C07_J): the overpass pair (9.7 m in 3-D) passes the 8 m ring in the map rendering only -/
+theorem evalFrame_toMap_fails_J :
+    ¬ (evalFrameV readerMapJ (exCfg exRing) (exFrame.toMap exHigh) = evalFrameV readerMapJ (exCfg exRing) exFrame) := by
+  intro h
+  have h' := congrArg (fun r => r.map FrameOut.summary) h
+  revert h'
+  decide +kernel
+
+example : (evalFrameV readerMapJ (exCfg exRing) (exFrame.toMap exHigh)).map (fun o => (o.summary.keptGt, o.summary.tp))
+      = .ok ([0, 1, 2], [10, 12, 11]) ∧
+    (evalFrameV readerMapJ (exCfg exRing) exFrame).map (fun o => (o.summary.keptGt, o.summary.tp)) = .ok ([1, 2], [12, 11]) := by
+  decide +kernel
+
+/-- … and for the map branch that skips the point-count criterion when no distance bound is configured
+(seed C07_G): the sparse ground truth (3 points < 5) survives in the map rendering only -/
+theorem evalFrame_toMap_fails_G :
+    ¬ (evalFrameV readerMapG (exCfg exBox) (exFrame.toMap exHigh) = evalFrameV readerMapG (exCfg exBox) exFrame) := by
+  intro h
+  have h' := congrArg (fun r => r.map FrameOut.summary) h
+  revert h'
+  decide +kernel
+
+example : (evalFrameV readerMapG (exCfg exBox) (exFrame.toMap exHigh)).map (fun o => (o.summary.keptGt, o.summary.tp))
+      = .ok ([0, 1, 2], [10, 12, 11]) ∧
+    (evalFrameV readerMapG (exCfg exBox) exFrame).map (fun o => (o.summary.keptGt, o.summary.tp)) = .ok ([0, 2], [10, 12]) ∧
+    (evalFrame (exCfg exBox) (exFrame.toMap exHigh)).map (fun o => (o.summary.keptGt, o.summary.tp)) = .ok ([0, 2], [10, 12]) := by
+  decide +kernel
+
+/-- … and for a map branch whose `__eq__` has a relative tolerance: twin ground truths 1/1024 m apart, 10⁶ m
+from the map origin, one of them matched.  The unmatched twin is FN in the ego rendering; in the map rendering it
+"is in" the list of matched ground truths and is counted nowhere.  (`samePose_toMap` is what rules this out.) -/
+def exTwinFrame : SFrame :=
+  { frameId := .baseLink, pose := exFar
+    ests := [⟨exEstAttr 10 (9/10), exTwinA⟩]
+    gts := [⟨exAttr 0 10, exTwinA⟩, ⟨exAttr 1 10, exTwinB⟩] }
+
+example : FrameOK exFar exTwinFrame :=
+  ⟨by unfold Rot2.IsUnit exFar; norm_num, by decide +kernel, rfl, by decide +kernel⟩
+
+theorem evalFrame_toMap_fails_E :
+    ¬ (evalFrameV readerMapE (exCfg exBox) (exTwinFrame.toMap exFar) = evalFrameV readerMapE (exCfg exBox) exTwinFrame) := by
+  intro h
+  have h' := congrArg (fun r => r.map FrameOut.summary) h
+  revert h'
+  decide +kernel
+
+example : (evalFrameV readerMapE (exCfg exBox) (exTwinFrame.toMap exFar)).map (fun o => (o.summary.tp, o.summary.fn)) = .ok ([10], []) ∧
+    (evalFrameV readerMapE (exCfg exBox) exTwinFrame).map (fun o => (o.summary.tp, o.summary.fn)) = .ok ([10], [1]) ∧
+    (evalFrame (exCfg exBox) (exTwinFrame.toMap exFar)).map (fun o => (o.summary.tp, o.summary.fn)) = .ok ([10], [1]) := by
+  decide +kernel
+
+/-- with the real readers the variants' dispatch is `evalFrame` -/
+example (C : EvalCfg) (f : SFrame) : evalFrameV readerMap C f = evalFrame C f := by
+  unfold evalFrameV evalFrame SFrame.reader
+  cases f.frameId <;> rfl
+
+/-- a history of two frames with different ego poses: the second frame swaps the uuids of two estimates, so
+CLEAR counts ID switches; the fold agrees (instance of `clear_toMap`) and is not trivial -/
+def exFrame2 : SFrame :=
+  { exFrame with
+    ests := [⟨exEstAttr 10 (9/10), exOverEst⟩, ⟨{ exEstAttr 12 (4/5) with uid := 212 }, exEst⟩,
+             ⟨{ exEstAttr 11 (7/10) with uid := 211 }, exEst2⟩] }
+def exHist : List (Pose × SFrame) := [(exHigh, exFrame), (exFar, exFrame2)]
+
+example : ∀ p ∈ exHist, FrameOK p.1 p.2 := by
+  intro p hp
+  simp only [exHist, List.mem_cons, List.not_mem_nil, or_false] at hp
+  rcases hp with rfl | rfl
+  · exact ⟨by unfold Rot2.IsUnit exHigh; norm_num, by decide +kernel, rfl, by decide +kernel⟩
+  · exact ⟨by unfold Rot2.IsUnit exFar; norm_num, by decide +kernel, rfl, by decide +kernel⟩
+
+example : clearOf (exCfg exRing) (histToMap exHist) = .ok ⟨4, 0, 2, 9/8⟩ ∧
+    clearOf (exCfg exRing) (histEgo exHist) = .ok ⟨4, 0, 2, 9/8⟩ := by
+  decide +kernel
 
 end PEval.C07
